@@ -39,7 +39,8 @@ func runC05(r *run) {
 			if i%3 == 0 {
 				src = "{% if b1 %}\n\n\nA \t{% endif %}\n\n  {% for i in nums %}\n{{ i }}  \t{% endfor %}\n{% set nm = \"lazy.tpl\" %}{% include nm %}" + src
 			}
-			files := map[string]string{"lazy.tpl": "{% for c in lst %}{% cycle \"p\" \"q\" %}{% ifchanged c %}{{ c }}{% endifchanged %}{% endfor %}"}
+			files := map[string]string{"lazy.tpl": "{% for c in lst %}{% cycle \"p\" \"q\" %}{% ifchanged c %}{{ c }}{% endifchanged %}{% endfor %}",
+				"conclib.tpl": "{% macro cm(x) export %}[{{ x }}]{% endmacro %}", "concpage.tpl": "{% import \"conclib.tpl\" cm %}{{ cm(1) }}{% include \"lazy.tpl\" %}"}
 			for k, v := range g.files {
 				files[k] = v
 			}
@@ -253,9 +254,23 @@ func execC05(r *run, c caseT) {
 					out = obsOK(out)
 				}
 				outs[gi*3+rep] = out
-				// the same set is used concurrently as well
+				// the same set is used concurrently as well: cached and uncached loads, compiles of
+				// templates that import a library, the cache cleaned in between
 				if t2, e2 := b.set.FromCache("lazy.tpl"); e2 == nil {
 					_, _ = t2.Execute(pongo2.Context{"lst": []any{"a", "a", "b"}})
+				}
+				if len(w.files) > 0 && w.files[0]["conclib.tpl"] != "" {
+					if t3, e3 := b.set.FromString("{% import \"conclib.tpl\" cm %}{{ cm(2) }}"); e3 == nil {
+						_, _ = t3.Execute(nil)
+					}
+					if t4, e4 := b.set.FromFile("concpage.tpl"); e4 == nil {
+						_, _ = t4.Execute(pongo2.Context{"lst": []any{"a"}})
+					}
+					_, _ = b.set.RenderTemplateFile("concpage.tpl", pongo2.Context{"lst": []any{"b"}})
+					if (gi+rep)%3 == 0 {
+						b.set.CleanCache("concpage.tpl")
+					}
+					_, _ = b.set.FromCache("concpage.tpl")
 				}
 			}
 		}(gi)
